@@ -22,8 +22,8 @@ type mapSliceValue struct {
 	valueEmbed
 }
 
-// func (v mapSliceValue) Equal(o Value) bool     { return v.slice == o.Interface() }
-func (v mapSliceValue) Interface() any { return v.slice }
+func (v mapSliceValue) Equal(o Value) bool { return Equal(v.slice, o.Interface()) }
+func (v mapSliceValue) Interface() any     { return v.slice }
 
 func (v mapSliceValue) Contains(elem Value) bool {
 	e := elem.Interface()
